@@ -372,3 +372,31 @@ def run_b8(chk, repo):
                           'the sub-expression is formatted by sympy\'s default printer, not by the NM-TRAN printer '
                           '(function names, operators and numbers come out in Python syntax)', line=m.node.lineno,
                           witness='Y = 1/(A .. Abs(X) ..) or 1/LOG(X): AttributeError or Python-syntax code')
+
+
+def run_b10(chk, repo):
+    B10 = chk.rule('B10', 'a general-solver ADVAN (solver_to_advan) is only selected by code that also writes $DES and '
+                          '$MODEL', floor=2)
+    um = repo.module(f'{NM}.update')
+    if 'solver_to_advan' not in um.functions:
+        raise AnalysisError('solver_to_advan not found')
+    n = 0
+    for name, f in um.functions.items():
+        calls = [c for c in calls_in(f.node) if dotted(c.func) == 'solver_to_advan']
+        if not calls:
+            continue
+        n += 1
+        recs = {c.args[0].value.split('\\n')[0].split('\n')[0].strip() for c in calls_in(f.node)
+                if dotted(c.func) == 'create_record' and c.args and isinstance(c.args[0], ast.Constant)
+                and isinstance(c.args[0].value, str)}
+        ok = '$DES' in recs and '$MODEL' in recs
+        chk.instance(B10, f'{name}: selects the ADVAN of the solver and creates records {sorted(recs)}: {ok}')
+        if not ok:
+            chk.violation(B10, um.rel, name, unparse(calls[0]),
+                          'ADVAN6/8/9/13/14/15 is written to $SUBROUTINES by code that does not write the differential '
+                          'equations', line=calls[0].lineno,
+                          witness="set_ode_solver(load_example_model('pheno'), 'LSODA'): $SUBROUTINE TRANS2 ADVAN13 and "
+                                  "$MODEL without $DES")
+    chk.instance(B10, f'{n} function(s) of update.py select a solver ADVAN')
+    if n == 0:
+        raise AnalysisError('B10: no caller of solver_to_advan')
